@@ -278,6 +278,8 @@ def ev_runfor(case):
         t_start = clock.t
         c0 = counts(ch, kind)
         kw = {"minutes": budget / 60.0} if budget < 3600 else {"hours": budget / 3600.0}
+        if case.get("days"):
+            kw = {"days": int(budget // 86400), "hours": int((budget % 86400) // 3600), "minutes": (budget % 3600) / 60.0}
         label = f"{kind}/cost={'slower-than-1s' if max(costs) >= 1 else 'faster-than-1s'}"
         try:
             with contextlib.redirect_stdout(io.StringIO()):
@@ -360,7 +362,7 @@ def ev_ptrunfor(case):
         pt = PARm.ParallelTempering(chains)
         pt.rng = np.random.default_rng(7)
         t0 = clock.t
-        kw = {"minutes": budget / 60.0}
+        kw = {"minutes": budget / 60.0} if budget < 3600 else {"hours": budget / 3600.0}
         pt.run_for(swap_interval=si, **kw)
         out["elapsed"] = clock.t - t0
         ch = pt.return_chains()
@@ -391,6 +393,58 @@ def ev_ptrunfor(case):
 
 
 EVALUATORS["ptrunfor"] = ev_ptrunfor
+
+
+def ev_hardstep(case):
+    """A chain whose step sometimes cannot be completed within max_attempts (hard walls, large step size, few attempts):
+    advance(m) either adds exactly m samples or fails loudly (the documented 'Failed to take step' error) with consistent
+    counters - it never returns normally having added fewer."""
+    from inference.mcmc import HamiltonianChain
+
+    def wall_post(t):
+        t = np.asarray(t, dtype=float)
+        return -0.5 * float((t ** 2).sum()) if np.all(np.abs(t) < 0.8) else -np.inf
+
+    def wall_grad(t):
+        return -np.asarray(t, dtype=float)
+
+    fails, tags = [], set()
+    n = 0
+    for seed in case["seeds"]:
+        with lib("construct"):
+            ch = HamiltonianChain(posterior=wall_post, grad=wall_grad, start=np.array([0.1, -0.2]), epsilon=case["eps"], display_progress=False)
+        ch.steps = 5
+        ch.max_attempts = case["max_attempts"]
+        ch.rng = np.random.default_rng(seed)
+        for m in case["ms"]:
+            before = counts(ch, "HamiltonianChain")
+            raised = None
+            try:
+                with contextlib.redirect_stdout(io.StringIO()):
+                    ch.advance(m)
+            except ValueError as e:
+                raised = str(e)
+            except Exception as e:  # anything else escaping is an observation
+                fails.append(fail("hardstep/HamiltonianChain/raises-unexpected", f"{type(e).__name__}: {e}"[:300], config=case))
+                break
+            n += 1
+            after = counts(ch, "HamiltonianChain")
+            if not (after[0] == after[1] == after[2]):
+                fails.append(fail("hardstep/HamiltonianChain/counters-inconsistent", f"{after}", config=case))
+            if raised is None:
+                if after[0] - before[0] != m:
+                    fails.append(fail("hardstep/HamiltonianChain/advance-returned-normally-with-fewer-samples-than-requested",
+                                      f"advance({m}) added {after[0] - before[0]} samples (max_attempts={case['max_attempts']}, eps={case['eps']})", config=case))
+                tags.add("hardstep:completed")
+            else:
+                if "maximum allowed attempts" not in raised and "Failed to take step" not in raised:
+                    fails.append(fail("hardstep/HamiltonianChain/raises-unexpected", raised[:300], config=case))
+                tags.add("hardstep:failed-loudly")
+                break
+    return {"fails": fails[:4], "n": n, "states": n, "transitions": n, "tags": tags}
+
+
+EVALUATORS["hardstep"] = ev_hardstep
 
 
 def run(ck):
@@ -435,13 +489,18 @@ def run(ck):
                     continue
                 rc.append(dict(sampler=kind, costs=c, budget_s=budget, display=False))
     rc.append(dict(sampler="GibbsChain", costs=[2.0], budget_s=60.0, display=True))
+    rc.append(dict(sampler="GibbsChain", costs=[900.0], budget_s=2 * 86400.0 + 5400.0, display=False, days=True))
+    rc.append(dict(sampler="HamiltonianChain", costs=[0.01], budget_s=30.5, display=False))
     rc.append(dict(sampler="EnsembleSampler", costs=[0.1], budget_s=60.0, display=False))
     rc.append(dict(sampler="GibbsChain", costs=[1e-6], budget_s=0.02 * 60, display=False))
     res = ck.run_cases("runfor", rc)
+    ck.run_cases("hardstep", [dict(eps=e, max_attempts=a, ms=[3, 10, 40], seeds=list(range(1 + ck.seed, 7 + ck.seed))) for e in (0.3, 1.5, 4.0) for a in (1, 2, 5)])
     # differential oracle: with a constant cost per step the number of steps of a timed run is a function of the clock only,
     # so a chain with a long history must take exactly as many steps as a fresh one
     ck.run_cases("ptrunfor", [dict(N=N, cost=c, budget_s=b, swap_interval=si) for N in (1, 2, 3) for c in (0.004, 0.3, 5.0) for b, si in ((12.0, 3), (90.0, 10), (1.0, 1))
-                              if b / c < 30000])
+                              if b / c < 30000]
+                 + [dict(N=2, cost=600.0, budget_s=90000.0, swap_interval=2), dict(N=1, cost=900.0, budget_s=2 * 86400.0 + 1800.0, swap_interval=1),
+                    dict(N=2, cost=0.004, budget_s=0.5, swap_interval=3), dict(N=1, cost=0.01, budget_s=61.25, swap_interval=2)])
     hc = []
     for kind in ("GibbsChain", "HamiltonianChain"):
         for c, budget in (([2.0], 60.0), ([0.1], 60.0), ([30.0], 3600.0), ([0.013], 1.0)):
